@@ -8,10 +8,12 @@ import (
 	"encoding/hex"
 	"fmt"
 	"math/big"
+	"reflect"
 	"sort"
 	"strconv"
 	"strings"
 	"time"
+	"unsafe"
 
 	"github.com/hyperledger/burrow/acm"
 	"github.com/hyperledger/burrow/acm/acmstate"
@@ -42,12 +44,12 @@ type VMCase struct {
 	CalleeBal  uint64      // balance of the callee before the call
 	Extra      []VMAccount // further accounts of the pre-state (contracts the program may call)
 	UsesExt    bool
-	Heavy      bool // may legitimately exceed the watchdog (EXP with huge operands, giant allocation)
-	Nonce      []byte   // engine.Options.Nonce: at chain level x/cvm passes the little-endian account sequence number of the sender
-	Prior      bool     // before the recorded execution, the same call is made once by ANOTHER sender (with PriorNonce) and committed
+	Heavy      bool   // may legitimately exceed the watchdog (EXP with huge operands, giant allocation)
+	Nonce      []byte // engine.Options.Nonce: at chain level x/cvm passes the little-endian account sequence number of the sender
+	Prior      bool   // before the recorded execution, the same call is made once by ANOTHER sender (with PriorNonce) and committed
 	PriorNonce []byte
 	CalleeMeta [][]byte // contract metadata of the callee: the code hashes of the contracts it may create (empty: any)
-	Expect     string // JSON object: facts that must hold of the result by construction of the program (profile "create")
+	Expect     string   // JSON object: facts that must hold of the result by construction of the program (profile "create")
 }
 
 // VMAccount is an account of the pre- or post-state.
@@ -66,17 +68,31 @@ type VMLog struct {
 }
 
 type VMResult struct {
-	Outcome string
-	Ret     []byte
-	GasLeft string
-	Storage [][2]string
-	Logs    []VMLog
-	Post    string // JSON array of every account after the call
-	Detail  string
-	PreDump string      // JSON array of every account before the recorded execution, when it is not the generated pre-state (Prior)
+	Outcome      string
+	Ret          []byte
+	GasLeft      string
+	Storage      [][2]string
+	Logs         []VMLog
+	Post         string // JSON array of every account after the call
+	Detail       string
+	PreDump      string // JSON array of every account before the recorded execution, when it is not the generated pre-state (Prior)
 	PriorOutcome string
-	Fresh   [][3]string // (creator, sequence number, address): the CREATE addresses the interpreter derived (sha256 based)
+	Fresh        [][3]string // (creator, sequence number, address): the CREATE addresses the interpreter derived (sha256 based)
+	Mem          []int64     // final size in bytes of the memory of every frame the interpreter opened, in order of creation (the first is the top frame's; at most vmMemFrames are listed)
 }
+
+const vmMemFrames = 256
+
+// vmMemoryProvider is the interpreter's own memory provider (vm.wrappedDDMP: a 16 MiB dynamic memory inside the gas
+// bookkeeping wrapper), read out of a CVM built with default options.  The harness wraps it only to keep a reference to the
+// memory of every frame, so that the final size (what MSIZE would push) can be reported after the run (C17
+// memory_is_paid_for).  The interpreter insists on its own unexported memory type, so the provider cannot be replaced, only
+// observed; what it returns is handed on unchanged.
+var vmMemoryProvider = func() func(errors.Sink) engine.Memory {
+	cvm0 := vm.NewCVM(engine.Options{Natives: native.MustDefaultNatives()})
+	f := reflect.ValueOf(cvm0).Elem().FieldByName("options").FieldByName("MemoryProvider")
+	return reflect.NewAt(f.Type(), unsafe.Pointer(f.UnsafeAddr())).Elem().Interface().(func(errors.Sink) engine.Memory)
+}()
 
 // ---- the chain's storage convention on top of Burrow's MemoryState ----------
 // x/cvm/keeper/state.go: GetStorage of an absent slot returns 32 zero bytes,
@@ -147,7 +163,7 @@ func (s *vmSink) Call(ev *exec.CallEvent, _ *errors.Exception) error {
 	}
 	return nil
 }
-func (s *vmSink) Print(*exec.PrintEvent) error                  { return nil }
+func (s *vmSink) Print(*exec.PrintEvent) error { return nil }
 func (s *vmSink) Log(l *exec.LogEvent) error {
 	v := VMLog{Addr: hex.EncodeToString(l.Address.Bytes()), Data: hex.EncodeToString(l.Data)}
 	for _, t := range l.Topics {
@@ -304,8 +320,19 @@ func RunVMCase(c *VMCase) (res VMResult) {
 		Gas:    gas,
 	}
 	bc := &vmChain{height: c.Height, t: time.Unix(c.Time, 0), chainid: c.ChainID}
+	var mems []engine.Memory
+	provider := func(sink errors.Sink) engine.Memory {
+		m := vmMemoryProvider(sink)
+		if len(mems) < vmMemFrames {
+			mems = append(mems, m)
+		}
+		return m
+	}
 	finish := func() {
 		res.Fresh = freshTable(c, sink.calls)
+		for _, m := range mems {
+			res.Mem = append(res.Mem, m.Capacity().Int64())
+		}
 		res.GasLeft = gas.String()
 		res.Storage = readStorage(st, VMCallee)
 		res.Logs = sink.logs
@@ -331,7 +358,7 @@ func RunVMCase(c *VMCase) (res VMResult) {
 		res.PriorOutcome = vmOutcome(perr)
 		res.PreDump = dumpWorld(st)
 	}
-	cvm := vm.NewCVM(engine.Options{Natives: vmNatives, Nonce: c.Nonce})
+	cvm := vm.NewCVM(engine.Options{Natives: vmNatives, Nonce: c.Nonce, MemoryProvider: provider})
 	out, err := cvm.Execute(st, bc, sink, params, c.Code)
 	res.Outcome = vmOutcome(err)
 	if err != nil {
@@ -465,6 +492,16 @@ func vmLineRes(b *strings.Builder, c *VMCase, r *VMResult) {
 	b.WriteString(`]`)
 	if r.Post != "" {
 		b.WriteString(`,"post":` + r.Post)
+	}
+	if r.Mem != nil {
+		b.WriteString(`,"mem":[`)
+		for i, m := range r.Mem {
+			if i > 0 {
+				b.WriteByte(',')
+			}
+			b.WriteString(strconv.FormatInt(m, 10))
+		}
+		b.WriteString(`]`)
 	}
 	if r.Detail != "" {
 		b.WriteString(`,"detail":` + strconv.Quote(r.Detail))
